@@ -16,7 +16,10 @@ CAP = 20000
 
 
 class _Ctx:
-    def __init__(self, classify, unroll, inline_closures, follow=None, irrefutable=None, branch_label=None):
+    def __init__(self, classify, unroll, inline_closures, follow=None, irrefutable=None, branch_label=None, decide_if=None, select_arms=None, inline_calls=None):
+        self.decide_if = decide_if        # optional: If node -> True / False / None (unknown): prune infeasible branches
+        self.select_arms = select_arms    # optional: Match node -> list of arm indices that can be taken, or None (all)
+        self.inline_calls = inline_calls  # optional: Call/MethodCall node -> body expr of a local callee to enumerate in place, or None
         self.irrefutable = irrefutable or (lambda n: False)
         self.branch_label = branch_label  # optional: If node -> (then_event, else_event)
         self.classify = classify
@@ -95,6 +98,12 @@ def _p(e, cx):
         if cx.irrefutable(e):
             return _own(e, _seq(c, set(t)), cx)
         f = _p(e["else"], cx) if "else" in e else EMPTY
+        if cx.decide_if is not None:
+            d = cx.decide_if(e)
+            if d is True:
+                return _own(e, _seq(c, set(t)), cx)
+            if d is False:
+                return _own(e, _seq(c, set(f)), cx)
         bl = cx.branch_label(e) if cx.branch_label else None
         if bl:
             tl, fl = bl
@@ -106,7 +115,10 @@ def _p(e, cx):
     if k == "Match":
         s = _p(e["scrut"], cx)
         alts = set()
-        for arm in e["arms"]:
+        sel = cx.select_arms(e) if cx.select_arms is not None else None
+        for ai_, arm in enumerate(e["arms"]):
+            if sel is not None and ai_ not in sel:
+                continue
             a = EMPTY
             if "guard" in arm:
                 a = _seq(a, _p(arm["guard"], cx))
@@ -162,6 +174,16 @@ def _p(e, cx):
         return set(EMPTY)
     # generic expression: children in evaluation order, then the node itself
     cur = EMPTY
+    if k in ("Call", "MethodCall") and cx.inline_calls is not None and cx.depth < 3:
+        body_ = cx.inline_calls(e)
+        if body_ is not None:
+            for c in _children_in_order(e):
+                if isinstance(c, dict) and "k" in c:
+                    cur = _seq(cur, _p(c, cx))
+            cx.depth += 1
+            inner = {(ev, "fall" if st == "ret" else st) for ev, st in _p(body_, cx)}
+            cx.depth -= 1
+            return _own(e, _seq(cur, inner), cx)
     for c in _children_in_order(e):
         if isinstance(c, dict) and "k" in c:
             cur = _seq(cur, _p(c, cx))
@@ -180,8 +202,8 @@ def _own(e, cur, cx):
     return {(ev + t, st) if st == "fall" else (ev, st) for ev, st in cur}
 
 
-def paths(expr, classify, unroll=1, inline_closures=True, irrefutable=None, branch_label=None):
-    cx = _Ctx(classify, unroll, inline_closures, irrefutable=irrefutable, branch_label=branch_label)
+def paths(expr, classify, unroll=1, inline_closures=True, irrefutable=None, branch_label=None, decide_if=None, select_arms=None, inline_calls=None):
+    cx = _Ctx(classify, unroll, inline_closures, irrefutable=irrefutable, branch_label=branch_label, decide_if=decide_if, select_arms=select_arms, inline_calls=inline_calls)
     return _p(expr, cx)
 
 
@@ -244,3 +266,107 @@ def implied_some_iflets(root):
 
     rec(root, set())
     return out
+
+
+
+def variant_case(F, fn, subject_hids, adt, variant):
+    """Callbacks (decide_if, select_arms) that prune path enumeration of `fn` under the assumption that the locals in
+    `subject_hids` (e.g. the `op` parameter and its re-borrows) hold enum variant `variant` of `adt`.
+    Understood condition forms: `matches!(x, P)`, `match x {P => true, _ => false}`, `if let P = x`, `!c`, `a && b`, `a || b`,
+    bool locals initialised from such tests, and local predicate functions `p(x)` whose body is such a test."""
+    from .facts import walk, peel, pat_variants
+
+    def subj(e):
+        e = peel(e)
+        while isinstance(e, dict) and e.get("k") in ("MethodCall",) and e.get("method") in ("clone", "borrow", "as_ref"):
+            e = peel(e["recv"])
+        return isinstance(e, dict) and e.get("k") == "Path" and e.get("res", {}).get("hid") in subject_hids
+
+    def pat_has(p):
+        vs, wild = pat_variants(p)
+        if any(a == adt and v == variant for a, v in vs):
+            return True
+        if wild:
+            return True
+        return False
+
+    def select_arms(m):
+        if not subj(m.get("scrut") or {}):
+            return None
+        for i, arm in enumerate(m["arms"]):
+            if pat_has(arm["pat"]) and "guard" not in arm:
+                return [i]
+            if pat_has(arm["pat"]) and "guard" in arm:
+                # guarded arm: may or may not be taken — keep it and continue to later arms
+                rest = [j for j in range(i + 1, len(m["arms"])) if pat_has(m["arms"][j]["pat"])]
+                return [i] + rest[:1]
+        return []
+
+    bool_locals = {}
+
+    def val(c, depth=0):
+        """True / False / None"""
+        c = peel(c)
+        if not isinstance(c, dict) or depth > 6:
+            return None
+        k = c.get("k")
+        if k == "Lit":
+            return True if c.get("lit") == "Bool(true)" else (False if c.get("lit") == "Bool(false)" else None)
+        if k == "Unary" and c.get("op") == "!":
+            v = val(c["a"], depth + 1)
+            return None if v is None else (not v)
+        if k == "Binary" and c.get("op") in ("&&", "||"):
+            a, b = val(c["a"], depth + 1), val(c["b"], depth + 1)
+            if c["op"] == "&&":
+                if a is False or b is False:
+                    return False
+                return True if (a is True and b is True) else None
+            if a is True or b is True:
+                return True
+            return False if (a is False and b is False) else None
+        if k == "Match" and subj(c.get("scrut") or {}):
+            sel = select_arms(c)
+            if sel and len(sel) == 1:
+                return val(c["arms"][sel[0]]["body"], depth + 1)
+            return None
+        if k == "LetExpr" and subj(c.get("init") or {}):
+            vs, wild = pat_variants(c["pat"])
+            return True if (wild or any(a == adt and v == variant for a, v in vs)) else False
+        if k == "Block" and not c.get("stmts") and c.get("expr") is not None:
+            return val(c["expr"], depth + 1)
+        if k == "DropTemps":
+            return val(c.get("e") or c.get("a") or {}, depth + 1)
+        if k == "Path" and c.get("res", {}).get("hid") in bool_locals:
+            return bool_locals[c["res"]["hid"]]
+        if k in ("Call", "MethodCall"):
+            callee = c.get("inst") or c.get("callee")
+            t = F.by_path.get(callee or "")
+            args = ([c["recv"]] if k == "MethodCall" else []) + list(c.get("args", []))
+            if t and len(t) == 1 and t[0].get("body") is not None and any(subj(a_) for a_ in args):
+                # local predicate p(.., x, ..): evaluate its body with the corresponding parameter as subject
+                g = t[0]
+                phids = set()
+                for pm, a_ in zip(g.get("params", []), args):
+                    if subj(a_) and pm["pat"].get("k") == "Binding":
+                        phids.add(pm["pat"]["hid"])
+                if phids:
+                    d2, s2, v2 = variant_case(F, g, phids, adt, variant)
+                    tail = g["body"]
+                    return v2(tail)
+        return None
+
+    # bool locals initialised from decidable tests
+    changed = True
+    while changed:
+        changed = False
+        for st in walk(fn["body"]):
+            if st.get("k") == "Let" and st["pat"].get("k") == "Binding" and st["pat"].get("ty") == "bool" and "init" in st and st["pat"]["hid"] not in bool_locals:
+                v = val(st["init"])
+                if v is not None:
+                    bool_locals[st["pat"]["hid"]] = v
+                    changed = True
+
+    def decide_if(n):
+        return val(n["cond"])
+
+    return decide_if, select_arms, val
